@@ -43,7 +43,7 @@ func init() {
 		Real: []string{"IpfsDHT.GetValue/SearchValue/searchValueQuorum/getValues/processValues (routing.go)", "ProtocolMessenger.GetValue (record key check)", "query.go lookup + follow-up", "records.ValueStore (local record)", "go-libp2p-record NamespacedValidator dispatch"},
 		Stub: []string{"host.Host/network (simhost)", "pb.MessageSender (level A, simnet.Sender)", "remote peers (scripted responders)", "record validator (harness rank validator, time-aware)", "datastore (simds, not parking)"},
 		Faults: []string{"fault_rec_invalid", "fault_rec_miskeyed", "fault_rec_empty", "fault_rpc_error", "fault_dial_fail", "fault_cancel", "time_advance",
-			"probe_found", "probe_notfound", "probe_stream_multi", "probe_search_ended_early", "probe_local_valid", "probe_local_expired", "probe_local_expired_midsearch", "probe_peer_serves_local_bytes_valid", "probe_peer_serves_local_bytes_expired_at_start", "probe_peer_serves_local_bytes_expired_midsearch", "probe_value_expired_midsearch", "probe_bestknown_checked", "probe_search_goroutine_blocked_after_end_standard"},
+			"probe_found", "probe_notfound", "probe_stream_multi", "probe_search_ended_early", "probe_local_valid", "probe_local_expired", "probe_local_expired_midsearch", "probe_peer_serves_local_bytes_valid", "probe_peer_serves_local_bytes_expired_at_start", "probe_peer_serves_local_bytes_expired_midsearch", "probe_value_expired_midsearch", "probe_bestknown_checked"},
 	})
 }
 
@@ -66,10 +66,17 @@ const (
 	// instant, exactly as for every other supplied record: the local record may
 	// be valid, expired before the search started, or expire while it runs.
 	c04LocalCopy
+	// c04Replay (histories only, c04_history.go): a record carrying exactly the
+	// bytes that an earlier search on the same client saw (supplied by a peer,
+	// yielded, or held in local storage under some key), filed under the key
+	// requested now or - a verbatim replay - under the key it was first seen
+	// with. Whether that is a valid record for the requested key at the delivery
+	// instant is, again, the validator's business alone.
+	c04Replay
 )
 
 func (k c04Kind) String() string {
-	return [...]string{"valid", "invalid", "miskeyed", "empty", "norecord", "error", "localcopy"}[k]
+	return [...]string{"valid", "invalid", "miskeyed", "empty", "norecord", "error", "localcopy", "replay"}[k]
 }
 
 // c04Resp is the script of one responder.
@@ -140,8 +147,12 @@ type c04World struct {
 	// validate is the validator the oracle applies to supplied records (the
 	// rank validator, or the real public-key validator in the /pk scenario)
 	validate func(key string, val []byte) error
-	resp     map[peer.ID]*c04Resp
-	side     map[peer.ID]string // dual: "wan" / "lan"
+	// sel is the selection function that goes with validate (nil: the rank
+	// validator's)
+	sel  func(key string, vals [][]byte) (int, error)
+	hist *c04Hist // multi-search histories only (c04_history.go)
+	resp map[peer.ID]*c04Resp
+	side map[peer.ID]string // dual: "wan" / "lan"
 
 	localVal          []byte
 	localStored       bool
@@ -337,7 +348,7 @@ func (w *c04World) replyFor(x *simnet.Peer, r *c04Resp, req *pb.Message) *pb.Mes
 	near := simnet.Nearest(cands, simnet.KadOfKey(string(req.GetKey())), w.cfg.K)
 	resp := &pb.Message{Type: req.GetType(), Key: req.GetKey(), CloserPeers: simnet.ToPB(near)}
 	switch r.Kind {
-	case c04Valid, c04Invalid, c04MisKeyed, c04LocalCopy:
+	case c04Valid, c04Invalid, c04MisKeyed, c04LocalCopy, c04Replay:
 		resp.Record = &recpb.Record{Key: []byte(r.RecKey), Value: append([]byte{}, r.Val...)}
 	case c04Empty:
 		resp.Record = &recpb.Record{Key: []byte(r.RecKey)}
@@ -366,6 +377,9 @@ func (w *c04World) actions() []sim.Action {
 		case "dial":
 			who := p.Data.(peer.ID)
 			acts = append(acts, sim.Action{ID: p.ID, Do: func() {
+				if w.hist != nil {
+					w.hist.contacted[who] = true
+				}
 				if r := w.resp[who]; r == nil || r.DialFail {
 					s.Count("fault_dial_fail")
 					s.Release(p, simhost.ErrDialFailed)
@@ -386,6 +400,9 @@ func (w *c04World) actions() []sim.Action {
 func (w *c04World) answer(p *sim.Parked, rpc *simnet.RPC) {
 	s := w.s
 	r, x := w.resp[rpc.To], w.u.ByID(rpc.To)
+	if w.hist != nil {
+		w.hist.contacted[rpc.To] = true
+	}
 	switch rpc.Req.GetType() {
 	case pb.Message_PUT_VALUE:
 		// corrective put after the search: acknowledged by echoing the record
@@ -407,6 +424,9 @@ func (w *c04World) answer(p *sim.Parked, rpc *simnet.RPC) {
 		sup.KeyOK = string(rec.GetKey()) == w.cfg.Key
 		sup.ValidNow = sup.KeyOK && len(rec.GetValue()) > 0 && w.validate(w.cfg.Key, rec.GetValue()) == nil
 		w.supplies = append(w.supplies, sup)
+		if w.hist != nil {
+			w.hist.delivered(w, &sup)
+		}
 		if r.Kind == c04LocalCopy {
 			switch {
 			case !w.localStored:
@@ -626,7 +646,11 @@ func c04RunValue(s *sim.Sim, variant string) {
 // still blocked. Not part of C04 (that is C03/C14 territory), so it is a probe,
 // not a rule: it documents that after an early (quorum) stop the lookup's
 // request goroutines can stay blocked on the value channel nobody reads any
-// more until the caller's context ends.
+// more until the caller's context ends. (Since the repository's fix "value-search
+// quorum hand-over" the standard client's workers leave through the stop
+// channel and the accelerated client's through its per-operation time-out, so
+// the counter is expected to stay at zero and is no longer listed among the
+// probes that must fire; it is kept as a canary.)
 func (w *c04World) afterSearch() {
 	s := w.s
 	for i := 0; i < 80; i++ {
@@ -691,6 +715,16 @@ func (w *c04World) provenance(val []byte, upto int) (rule, detail string) {
 		return "yield-expired-local", fmt.Sprintf("the %s client yielded the locally stored record %s, which the validator rejects when the search starts (it was valid when stored): the local record enters the search without re-validation%s",
 			w.cfg.Variant, c04Short(val), c04LocalSite(w.cfg.Variant))
 	}
+	if w.hist != nil && w.hist.carriedOver(w, val) {
+		// Histories: the value was supplied for this very key, correctly keyed and
+		// validator-approved, to an earlier search on the same client, and the
+		// validator still accepts it now. The property does not forbid a client
+		// that remembers such a value (GetPublicKey does, through the peerstore),
+		// so this is not held against it - except by the not-found clause in
+		// check() when nothing valid was supplied to this search at all.
+		w.s.Count("probe_history_value_carried_over")
+		return "", ""
+	}
 	switch {
 	case misKeyed != nil:
 		return "yield-miskeyed", fmt.Sprintf("yielded %s, which %s supplied in a record filed under another key than the requested %q", c04Short(val), w.u.Name(misKeyed.Peer), w.cfg.Key)
@@ -698,6 +732,14 @@ func (w *c04World) provenance(val []byte, upto int) (rule, detail string) {
 		return "yield-invalid", fmt.Sprintf("yielded %s, which %s supplied and the validator rejected at the delivery instant (step %d)", c04Short(val), w.u.Name(invalid.Peer), invalid.Step)
 	}
 	return "yield-unsupplied", fmt.Sprintf("yielded %s, which neither local storage nor any delivered reply supplied", c04Short(val))
+}
+
+// selectFn is the selection function of the validator in force.
+func (w *c04World) selectFn() func(key string, vals [][]byte) (int, error) {
+	if w.sel != nil {
+		return w.sel
+	}
+	return w.val.Select
 }
 
 func c04LocalSite(variant string) string {
@@ -746,7 +788,7 @@ func (w *c04World) check() {
 
 	// (2) the stream strictly improves under the validator's selection
 	for i := 1; i < len(outs); i++ {
-		sel, serr := w.val.Select(c.Key, [][]byte{outs[i-1].Val, outs[i].Val})
+		sel, serr := w.selectFn()(c.Key, [][]byte{outs[i-1].Val, outs[i].Val})
 		if serr != nil || sel != 1 {
 			s.Violate("stream-not-improving", "SearchValue value #%d %s does not improve on value #%d %s (Select=%d err=%v)", i, c04Short(outs[i].Val), i-1, c04Short(outs[i-1].Val), sel, serr)
 		}
@@ -766,7 +808,7 @@ func (w *c04World) check() {
 	if w.localStored {
 		if w.localValidAtStart {
 			s.Count("probe_local_valid")
-			if w.val.Validate(c.Key, w.localVal) != nil {
+			if w.validate(c.Key, w.localVal) != nil {
 				s.Count("probe_local_expired_midsearch")
 			}
 		} else {
@@ -808,7 +850,7 @@ func (w *c04World) check() {
 					s.Violate("valid-value-lost", "%s ended with no value (err=%v) although %s supplied the valid value %s while the search was running", w.op.Name, err, m.from, c04Short(m.val))
 					break
 				}
-				sel, serr := w.val.Select(c.Key, [][]byte{final, m.val})
+				sel, serr := w.selectFn()(c.Key, [][]byte{final, m.val})
 				if serr != nil || sel != 0 {
 					s.Violate("best-known", "final value %s is ranked worse than %s supplied by %s while the search was running", c04Short(final), c04Short(m.val), m.from)
 					break
@@ -825,6 +867,11 @@ func (w *c04World) check() {
 			}
 			if c.Search && err != nil {
 				s.Violate("notfound-error", "no valid value was supplied by anyone, SearchValue must end without a value, it failed with %v", err)
+			}
+			if final != nil && w.hist != nil {
+				// only reachable in histories, for a value carried over from an earlier
+				// search (everything else already failed the provenance rules of (1))
+				s.Violate("notfound-value", "neither local storage nor any peer supplied a valid value to this search, the result must be not-found; %s yielded %s, which only an earlier search on the same client was supplied with", w.op.Name, c04Short(final))
 			}
 		} else if final != nil {
 			s.Count("probe_found")
